@@ -750,8 +750,8 @@ def wide_tie(ctx, mbin_files):
 # and the theorems prove that sufficient.  Whether the C really computes them in 64 bit can be observed by running
 # only for diag1/diag2 (wide tie); for T1, T2, diag and the products it would take >= 32 GiB of touched memory.  So this
 # part of the correspondence is checked on the C's typed syntax tree (clang): inside the a_real_* functions of linalg.c
-# no integer multiplication / left shift is computed in a type narrower than 64 bit, and no 64-bit integer is cast to a
-# narrower one.  (A finding here has a concrete failing input only where the wide tie can produce one.)
+# no integer multiplication / left shift is computed in a type narrower than 64 bit, no 64-bit integer is cast to a
+# narrower one, and no parameter or local integer variable is narrower than a_uint.  (A finding here has a concrete failing input only where the wide tie can produce one.)
 _INT_WIDTH = {"unsigned long": 64, "long": 64, "unsigned long long": 64, "long long": 64, "unsigned int": 32, "int": 32,
               "unsigned short": 16, "short": 16, "unsigned char": 8, "signed char": 8, "char": 8, "_Bool": 1}
 MODEL_SZ_MUL_SITES = {"a_real_T1": 2, "a_real_T2": 2, "a_real_diag": 1, "a_real_diag1": 1, "a_real_diag2": 1,
@@ -793,6 +793,9 @@ def width_tie(ctx):
                 sites[fname] = sites.get(fname, 0) + 1
                 if w < 64:
                     bad.append("%s (src/linalg.c line ~%s): integer '%s' computed in a %d-bit type" % (fname, cur, n.get("opcode"), w))
+        if k in ("VarDecl", "ParmVarDecl") and width(n.get("type", {})) in (8, 16):
+            bad.append("%s (src/linalg.c line ~%s): integer variable '%s' is narrower than a_uint (%d bit); the model's counters "
+                       "and dimensions are a_uint" % (fname, cur, n.get("name", "?"), width(n["type"])))
         if n.get("castKind") == "IntegralCast" and n.get("inner"):
             ws, wd = width(n["inner"][0].get("type", {})), width(n.get("type", {}))
             if ws == 64 and wd is not None and wd < 64:
@@ -811,7 +814,7 @@ def width_tie(ctx):
     ctx.cov["width_tie"] = {"functions_scanned": nfun, "integer_products_in_C": sites, "sz_mul_sites_in_model": MODEL_SZ_MUL_SITES,
                             "narrow_products_or_narrowing_casts": bad,
                             "rule": "clang syntax tree of $VERIF_REPO/src/linalg.c: every integer * / << inside a_real_* has a 64-bit type, "
-                                    "no 64->narrower integer cast (the model's sz_mul/sz_add are 64 bit)"}
+                                    "no 64->narrower integer cast, no 8/16-bit integer variable (the model's sz_mul/sz_add are 64 bit, its counters a_uint)"}
     for b in bad[:4]:
         ctx.tie_broken("width tie: " + b + "; the model (and its no-wrap theorems) compute this offset in a_size (64 bit)")
 
@@ -929,7 +932,8 @@ def run(ctx):
         "__restrict inputs are immutable lists; identical row bodies of the square and rectangular variants share one model definition",
         "offset WIDTH is exercised by the tie only for a_real_diag1/diag2 (wide run, matrices up to 2^34 cells, sparse); for T1, T2, diag "
         "and the four products a run with an offset >= 2^32 needs >= 32 GiB of touched memory and is not made: there the a_size casts "
-        "are modelled and proved sufficient, and a narrowing of one of them would only be seen by reading the C against LinalgDefs.v",
+        "are modelled and proved sufficient, and that the C has them is checked on clang's typed syntax tree (width tie: every integer "
+        "product in a_real_* is 64 bit, no narrowing cast, no 8/16-bit variable) - a finding there comes without a runnable failing input",
         "harness/C09/wdrv.c (mmap MAP_NORESERVE + PROT_NONE pages), harness/C09/wmdrv.ml; LinalgWide.v is a second hand-written model of "
         "diag1/diag2, tied to the list model by theorems (same offset expression for all arguments, same results on common arrays)",
         "same Gallina term instantiated at Z (tie), PrimFloat (bit-exact tie) and arbitrary T (theorems)",
@@ -1017,13 +1021,16 @@ META = {
             "Tie (correspondence, not proof): list model extracted at Z vs the C on integer-valued doubles (exact, FP flags checked, canary "
             "cells, ASan/UBSan), every shape of every routine up to a bound exhaustively plus random larger ones; the same Gallina term at "
             "PrimFloat vs the C bit for bit on arbitrary doubles; N-indexed model vs the C for diag1/diag2 on sparse matrices of 2^32..2^34 "
-            "cells (n = 65535..65538, 2^31, UINT_MAX). The exact integer definition of every routine is evaluated on all C outputs.",
-    "note": "Trusted: Coq kernel/vm_compute; extraction (ExtrOcamlBasic only) + OCaml/C drivers; gcc, ASan/UBSan, mmap. The cursor-level "
+            "cells (n = 65535..65538, 2^31, UINT_MAX). The exact integer definition of every routine is evaluated on all C outputs. "
+            "Static width tie: in clang's typed syntax tree of src/linalg.c every integer product inside a_real_* is computed in 64 bit "
+            "and nothing is narrowed (these are the sites where the model uses its 64-bit sz_mul).",
+    "note": "Trusted: Coq kernel/vm_compute; extraction (ExtrOcamlBasic only) + OCaml/C drivers; gcc, ASan/UBSan, mmap, clang -ast-dump. The cursor-level "
             "models coq/C09/LinalgDefs.v and LinalgWide.v are hand-written and tied to the C by correspondence on the generated shapes only. "
             "a_uint is modelled as 32 bit and a_size as 64 bit with explicit wrap at every integer offset computation (theorems hold for "
             "dimensions < 2^32 - exactly the representable ones); pointer steps are element offsets without wrap; integer values are carried "
             "in nat. The tie exercises offsets >= 2^32 only for diag1/diag2; for T1, T2, diag and the products that would need >= 32 GiB of "
-            "touched memory, so a narrowing of their a_size casts is covered by the model+proof but NOT by the correspondence run. "
+            "touched memory, so a narrowing of their a_size casts is detected only by the static width tie "
+            "(clang syntax tree; reported without a runnable failing input), not by running. "
             "Memory safety of the C is observed (guards, ASan), proved only of the model. A pointer more than one past the end is formed (never "
             "dereferenced) by `y += n` in a_real_mulTT; the model treats it as a plain offset. Real-number axioms only under the R instances.",
     "technique": "Rocq proof (loop invariants over cursor arithmetic with explicit 32/64-bit wrap, induction on dimensions) + "
